@@ -72,6 +72,29 @@ CHECKS = {
              'b_u + sum_i k[i,u] clip(x_i), and that constraint-satisfying weights give monotone, dominance-respecting, '
              'weighted-average behaviour.',
         note='Real arithmetic.'),
+    'C09': dict(
+        engine=E1, design_ref='DESIGN.md 3/C09',
+        technique='two bounded symbolic executions of the same real object on related symbolic tensors (multi-unit vs single column, batch vs single row) + z3 equality queries (rewriter normal form for identical polynomials)',
+        text='For every enumerated layer/constraint configuration the solver decides over ALL kernels and inputs that the weight '
+             'constraint of a multi-unit kernel equals the constraint applied to each column alone (Lattice, PWL, categorical, '
+             'Linear, KFL kernel+scale), that unit outputs depend only on their own parameters, and that each batch row of every '
+             'layer, cdf_fn, pwl_calibration_fn and a premade model is independent of the other rows.',
+        note='Real arithmetic; stubs for softmax/sigmoid/exp/log/root shared between the two executions.'),
+    'C13': dict(
+        engine=E1, design_ref='DESIGN.md 3/C13',
+        technique='bounded symbolic execution of the Keras regularizer objects + z3 polynomial identities against the documented sums',
+        text='For every enumerated shape / amount configuration the solver decides over ALL real kernels that the lattice Laplacian '
+             'and torsion and the PWL Laplacian, Hessian and wrinkle regularizers equal the documented sums (incl. cyclic wrap-around '
+             'and per-dimension amounts), are additive in l1/l2 and vanish on the documented null spaces.',
+        note='Real arithmetic; non-negativity with squares follows from the identity with a sum of non-negative terms.'),
+    'C19': dict(
+        engine=E1, design_ref='DESIGN.md 3/C19',
+        technique='tf.GradientTape traced to a graph, executed symbolically; z3 polynomial identities against analytic derivatives; zero patterns as case assumptions',
+        text='The hand-written gradient of custom_reduce_prod equals dy * prod_{j!=i} x_j for every input with every pattern of exact '
+             'zeros along the reduced axis (length 2-4) and every upstream gradient; KFL layer gradients w.r.t. kernel, scale, input '
+             'equal the analytic derivatives inside each cell; d out / d kernel of Lattice, PWLCalibration, CategoricalCalibration is '
+             'the interpolation-weight tensor, free of kernel variables, non-negative and summing to one for Lattice.',
+        note='TF autodiff of primitive ops is trusted; only differentiability points.'),
 }
 
 NOT_YET = 'check not built yet in this round (work in progress, see DESIGN.md)'
